@@ -25,6 +25,21 @@ Proof.
   rewrite (H x (or_introl eq_refl)). f_equal. apply IH. intros a Ha. apply H. right. exact Ha.
 Qed.
 
+Lemma filter_comm {A} (f g : A -> bool) l : filter f (filter g l) = filter g (filter f l).
+Proof.
+  induction l as [|x t IH]; simpl; [reflexivity|].
+  destruct (f x) eqn:Ef, (g x) eqn:Eg; simpl; rewrite ?Ef, ?Eg, IH; reflexivity.
+Qed.
+
+Lemma StronglySorted_filter {A} (R : A -> A -> Prop) (f : A -> bool) l :
+  StronglySorted R l -> StronglySorted R (filter f l).
+Proof.
+  induction l as [|x t IH]; intros H; simpl; [constructor|].
+  inversion H as [|? ? Ht Hx]; subst. destruct (f x); [|apply IH; exact Ht].
+  constructor; [apply IH; exact Ht|].
+  rewrite Forall_forall in *. intros y Hy. apply filter_In in Hy. apply Hx. tauto.
+Qed.
+
 Lemma firstn_In_incl {A} n (l : list A) x : In x (firstn n l) -> In x l.
 Proof.
   revert l. induction n as [|n IH]; intros l H; simpl in H; [destruct H|].
@@ -231,15 +246,21 @@ Proof.
 Qed.
 
 (* the float 1.0 is the whole set, the float 0.0 nobody *)
+Lemma pow2_nonneg j : 0 <= 2 ^ j.
+Proof. apply Z.pow_nonneg. lia. Qed.
+
+Lemma limit_frac_le k j len : k <= 2 ^ j -> limit (AFrac k j) len = Some ((len * k) / 2 ^ j).
+Proof. intros H. simpl. destruct (k <=? 2 ^ j) eqn:E; [reflexivity|lia]. Qed.
+
 Lemma limit_frac_one len : limit (AFrac 1 0) len = Some len.
-Proof. simpl. rewrite Z.mul_1_r, Z.div_1_r. reflexivity. Qed.
+Proof. rewrite limit_frac_le by (simpl; lia). rewrite Z.mul_1_r. simpl. rewrite Z.div_1_r. reflexivity. Qed.
 Lemma limit_frac_zero len j : limit (AFrac 0 j) len = Some 0.
-Proof. simpl. rewrite Z.mul_0_r. reflexivity. Qed.
+Proof. rewrite limit_frac_le by apply pow2_nonneg. rewrite Z.mul_0_r. reflexivity. Qed.
 Lemma limit_frac_floor len k j :
   0 <= j -> 0 <= len -> 0 <= k <= 2 ^ j ->
   exists n, limit (AFrac k j) len = Some n /\ 0 <= n <= len /\ n * 2 ^ j <= len * k < (n + 1) * 2 ^ j.
 Proof.
-  intros Hj Hl Hk. simpl. eexists. split; [reflexivity|].
+  intros Hj Hl Hk. rewrite limit_frac_le by lia. eexists. split; [reflexivity|].
   assert (0 < 2 ^ j) as Hp by (apply Z.pow_pos_nonneg; lia).
   pose proof (Z.div_mod (len * k) (2 ^ j) ltac:(lia)) as Hdm.
   pose proof (Z.mod_pos_bound (len * k) (2 ^ j) Hp) as Hb.
@@ -247,6 +268,48 @@ Proof.
   { apply Z.div_le_upper_bound; [exact Hp|]. nia. }
   assert (0 <= len * k / 2 ^ j) as H0 by (apply Z.div_pos; nia).
   split; [lia|]. nia.
+Qed.
+
+(* --- outside the statement's quantifier: what the code does with other at_most values --- *)
+(* a float above 1.0 is NOT converted: it is used as a count, i.e. the first ceil(f) matches *)
+Lemma limit_frac_above_one len k j :
+  0 <= j -> 2 ^ j < k ->
+  exists n, limit (AFrac k j) len = Some n /\ (n - 1) * 2 ^ j < k <= n * 2 ^ j /\ 2 <= n.
+Proof.
+  intros Hj Hk. simpl. destruct (k <=? 2 ^ j) eqn:E; [lia|]. eexists. split; [reflexivity|].
+  assert (0 < 2 ^ j) as Hp by (apply Z.pow_pos_nonneg; lia).
+  pose proof (Z.div_mod (k + 2 ^ j - 1) (2 ^ j) ltac:(lia)) as Hdm.
+  pose proof (Z.mod_pos_bound (k + 2 ^ j - 1) (2 ^ j) Hp) as Hb.
+  split; [nia|]. apply Z.div_le_lower_bound; lia.
+Qed.
+
+(* a limit <= 0 (a negative int, a negative float, 0, 0.0) selects nobody, whatever the filter does:
+   the generator breaks before it looks at the first member *)
+Lemma select_loop_nonpositive t p ty n l : n <= 0 -> select_loop t p ty (Some n) 0 l = Some [].
+Proof.
+  intros H. destruct l as [|a rest]; [reflexivity|]. simpl.
+  destruct (0 >=? n) eqn:E; [reflexivity|lia].
+Qed.
+
+Lemma select_nonpositive_limit t p am ty m n :
+  limit am (zlen m) = Some n -> n <= 0 -> select_members t p am ty m = Some [].
+Proof.
+  intros Hl Hn. unfold select_members. destruct (is_fast p am ty) eqn:Ef.
+  - destruct p; [discriminate|]. destruct ty; [discriminate|]. destruct am; try discriminate.
+  - unfold zlen in Hl. rewrite Hl. apply select_loop_nonpositive. exact Hn.
+Qed.
+
+Lemma limit_negative am len :
+  0 <= len ->
+  match am with AInt k => k < 0 | AFrac k j => k < 0 | AInf => False end ->
+  exists n, limit am len = Some n /\ n <= 0.
+Proof.
+  intros Hl H. destruct am as [|k|k j]; [destruct H|eexists; split; [reflexivity|lia]|].
+  rewrite limit_frac_le by (pose proof (pow2_nonneg j); lia).
+  eexists. split; [reflexivity|].
+  destruct (Z.eq_dec (2 ^ j) 0) as [E|E]; [rewrite E, Zdiv_0_r; lia|].
+  assert (0 < 2 ^ j) by (pose proof (pow2_nonneg j); lia).
+  apply Z.div_le_upper_bound; [assumption|]. nia.
 Qed.
 
 (* ------------------------------------------------------------------ 2. sort *)
@@ -438,6 +501,50 @@ Lemma sort_NoDup t k asc m r : sort_members t k asc m = Some r -> NoDup m -> NoD
 Proof.
   intros H Hnd. apply sort_spec in H. destruct H as [Hp _].
   eapply Permutation_NoDup; eassumption.
+Qed.
+
+(* tuple keys *)
+Lemma sort2_form t k1 k2 asc m r :
+  sort2_members t k1 k2 asc m = Some r ->
+  r = isort (dir_le asc) (key_or0 t k1) (isort (dir_le asc) (key_or0 t k2) m).
+Proof.
+  unfold sort2_members. destruct (all_some _ m); [|discriminate]. intros H. inversion H. reflexivity.
+Qed.
+
+(* lexicographic: sorted by the first component; the members sharing a first component are sorted by the
+   second; members with the same pair keep their order; a permutation *)
+Lemma sort2_spec t k1 k2 asc m r :
+  sort2_members t k1 k2 asc m = Some r ->
+  let f1 := key_or0 t k1 in let f2 := key_or0 t k2 in
+  Permutation m r /\ key_sorted asc f1 r /\
+  (forall v, key_sorted asc f2 (filter (fun a => f1 a =? v) r)) /\
+  (forall v w, filter (fun a => f2 a =? w) (filter (fun a => f1 a =? v) r) =
+               filter (fun a => f2 a =? w) (filter (fun a => f1 a =? v) m)).
+Proof.
+  intros H f1 f2. apply sort2_form in H. subst r.
+  pose proof (dir_le_total asc) as Ht. pose proof (dir_le_trans asc) as Htr.
+  split; [|split; [|split]].
+  - etransitivity; [apply (isort_perm (dir_le asc) f2)|apply isort_perm].
+  - apply kle_key_sorted. apply isort_sorted; assumption.
+  - intros v. fold (has_key f1 v). rewrite (isort_stable (dir_le asc) f1 Ht).
+    apply kle_key_sorted. apply StronglySorted_filter. apply isort_sorted; assumption.
+  - intros v w. fold (has_key f1 v). rewrite (isort_stable (dir_le asc) f1 Ht).
+    rewrite filter_comm. fold (has_key f2 w). rewrite (isort_stable (dir_le asc) f2 Ht).
+    apply filter_comm.
+Qed.
+
+Lemma sort2_none t k1 k2 asc m :
+  sort2_members t k1 k2 asc m = None <->
+  exists a, In a m /\ (eval_key t k1 a = None \/ eval_key t k2 a = None).
+Proof.
+  unfold sort2_members.
+  destruct (all_some _ m) eqn:E.
+  - split; [discriminate|]. intros [a [Ha Hn]].
+    destruct (all_some_pointwise _ _ _ a E Ha) as [b Hb].
+    destruct (eval_key t k1 a), (eval_key t k2 a); destruct Hn; congruence.
+  - split; [|reflexivity]. intros _. apply all_some_none in E. destruct E as [a [Ha Hn]].
+    exists a. split; [exact Ha|]. destruct (eval_key t k1 a); [|left; reflexivity].
+    destruct (eval_key t k2 a); [discriminate|right; reflexivity].
 Qed.
 
 (* ------------------------------------------------------------------ 3. shuffle *)
@@ -887,6 +994,210 @@ Section MixinLaws.
   Qed.
 End MixinLaws.
 
+(* --- set algebra inherited from collections.abc.Set / MutableSet --- *)
+Lemma isin_In m a : isin m a = true <-> In a m.
+Proof. apply zmemb_In. Qed.
+Lemma notin_In m a : notin m a = true <-> ~ In a m.
+Proof. unfold notin. rewrite negb_true_iff. apply zmemb_false. Qed.
+
+Lemma new_set_In l a : In a (new_set l) <-> In a l.
+Proof. apply dedup_first_In. exact Z.eqb_eq. Qed.
+Lemma new_set_NoDup l : NoDup (new_set l).
+Proof. apply dedup_first_NoDup. exact Z.eqb_eq. Qed.
+
+Lemma NoDup_snoc (m : list id) a : NoDup m -> ~ In a m -> NoDup (m ++ [a]).
+Proof. intros H1 H2. apply (Permutation_NoDup (Permutation_cons_append m a)). constructor; assumption. Qed.
+
+Lemma add_all_spec m2 : forall m1,
+  (forall a, In a (add_all m1 m2) <-> In a m1 \/ In a m2) /\ (NoDup m1 -> NoDup (add_all m1 m2)).
+Proof.
+  unfold add_all. induction m2 as [|v t IH]; intros m1; simpl.
+  - split; [intros a; tauto|auto].
+  - destruct (memb Z.eqb v m1) eqn:E.
+    + apply zmemb_In in E. destruct (IH m1) as [H1 H2]. split; [|exact H2].
+      intros a. rewrite H1. split; [tauto|]. intros [H|[H|H]]; [tauto|subst; tauto|tauto].
+    + apply zmemb_false in E. destruct (IH (m1 ++ [v])) as [H1 H2]. split.
+      * intros a. rewrite H1, in_app_iff. simpl. tauto.
+      * intros Hnd. apply H2. apply NoDup_snoc; assumption.
+Qed.
+
+Lemma dedup_acc_ext l : forall s1 s2,
+  (forall x, In x s1 <-> In x s2) -> dedup_acc Z.eqb s1 l = dedup_acc Z.eqb s2 l.
+Proof.
+  induction l as [|x r IHl]; intros s1 s2 Hs; simpl; [reflexivity|].
+  assert (memb Z.eqb x s1 = memb Z.eqb x s2) as ->.
+  { destruct (memb Z.eqb x s1) eqn:E1, (memb Z.eqb x s2) eqn:E2; try reflexivity.
+    - apply zmemb_In in E1. apply Hs in E1. apply zmemb_In in E1. congruence.
+    - apply zmemb_In in E2. apply Hs in E2. apply zmemb_In in E2. congruence. }
+  destruct (memb Z.eqb x s2); [apply IHl; exact Hs|]. f_equal. apply IHl.
+  intros y. simpl. rewrite Hs. tauto.
+Qed.
+
+(* self |= other: self keeps its order, the new members follow in other's order = what | builds *)
+Lemma add_all_is_new_set m2 : forall m1, NoDup m1 -> add_all m1 m2 = m1 ++ dedup_acc Z.eqb m1 m2.
+Proof.
+  unfold add_all. induction m2 as [|v t IH]; intros m1 Hnd; simpl; [rewrite app_nil_r; reflexivity|].
+  destruct (memb Z.eqb v m1) eqn:E; [apply IH; exact Hnd|].
+  rewrite IH by (apply NoDup_snoc; [exact Hnd|apply zmemb_false; exact E]).
+  rewrite <- app_assoc. simpl. f_equal. f_equal.
+  apply dedup_acc_ext. intros x. rewrite in_app_iff. simpl. tauto.
+Qed.
+
+Lemma toggle_all_spec m2 : forall m1,
+  NoDup m1 ->
+  NoDup (toggle_all m1 m2) /\
+  (forall a, In a (toggle_all m1 m2) -> In a m1 \/ In a m2) /\
+  (NoDup m2 -> forall a, In a (toggle_all m1 m2) <-> (In a m1 /\ ~ In a m2) \/ (~ In a m1 /\ In a m2)).
+Proof.
+  unfold toggle_all. induction m2 as [|v t IH]; intros m1 Hnd; simpl.
+  - split; [exact Hnd|]. split; [tauto|]. intros _ a. tauto.
+  - destruct (memb Z.eqb v m1) eqn:E.
+    + apply zmemb_In in E.
+      destruct (IH (remove_key Z.eqb v m1) (remove_key_NoDup _ _ _ Hnd)) as [H1 [H2 H3]].
+      split; [exact H1|]. split.
+      * intros a Ha. destruct (H2 a Ha) as [H|H]; [apply zremove_key_In in H; tauto|tauto].
+      * intros Hnd2 a. inversion Hnd2 as [|? ? Hv Ht]; subst. rewrite (H3 Ht a), zremove_key_In.
+        destruct (Z.eq_dec a v) as [->|Hne]; [tauto|].
+        assert (v <> a) as Hne' by congruence. tauto.
+    + apply zmemb_false in E.
+      destruct (IH (m1 ++ [v]) (NoDup_snoc _ _ Hnd E)) as [H1 [H2 H3]].
+      split; [exact H1|]. split.
+      * intros a Ha. destruct (H2 a Ha) as [H|H]; [apply in_app_iff in H; simpl in H; tauto|tauto].
+      * intros Hnd2 a. inversion Hnd2 as [|? ? Hv Ht]; subst. rewrite (H3 Ht a), in_app_iff. simpl.
+        destruct (Z.eq_dec a v) as [->|Hne]; [tauto|].
+        assert (v <> a) as Hne' by congruence. tauto.
+Qed.
+
+Lemma set_binop_NoDup o inplace m1 m2 : NoDup m1 -> NoDup m2 -> NoDup (set_binop o inplace m1 m2).
+Proof.
+  intros H1 H2. destruct o, inplace; simpl; try apply new_set_NoDup; try (apply NoDup_filter; assumption).
+  - apply add_all_spec. exact H1.
+  - apply toggle_all_spec. exact H1.
+Qed.
+
+Lemma toggle_all_incl m2 a : forall m1, In a (toggle_all m1 m2) -> In a m1 \/ In a m2.
+Proof.
+  unfold toggle_all. induction m2 as [|v t IH]; intros m1 H; simpl in H; [left; exact H|].
+  destruct (memb Z.eqb v m1).
+  - destruct (IH _ H) as [H'|H']; [apply zremove_key_In in H'; tauto|simpl; tauto].
+  - destruct (IH _ H) as [H'|H']; [apply in_app_iff in H'; simpl in H'; simpl; tauto|simpl; tauto].
+Qed.
+
+Lemma set_binop_incl o inplace m1 m2 a : In a (set_binop o inplace m1 m2) -> In a m1 \/ In a m2.
+Proof.
+  destruct o, inplace; simpl; intros H.
+  - apply add_all_spec in H. exact H.
+  - rewrite new_set_In, in_app_iff in H. exact H.
+  - apply filter_In in H. tauto.
+  - apply filter_In in H. tauto.
+  - apply filter_In in H. tauto.
+  - apply filter_In in H. tauto.
+  - apply toggle_all_incl. exact H.
+  - rewrite new_set_In, in_app_iff in H. destruct H as [H|H]; apply filter_In in H; tauto.
+Qed.
+
+(* membership of the results: the set-theoretic operations *)
+Lemma set_binop_In o inplace m1 m2 a :
+  NoDup m1 -> NoDup m2 ->
+  (In a (set_binop o inplace m1 m2) <->
+   match o with
+   | SUnion => In a m1 \/ In a m2
+   | SInter => In a m1 /\ In a m2
+   | SDiff => In a m1 /\ ~ In a m2
+   | SXor => (In a m1 /\ ~ In a m2) \/ (~ In a m1 /\ In a m2)
+   end).
+Proof.
+  intros H1 H2. destruct o, inplace; simpl;
+    rewrite ?new_set_In, ?in_app_iff, ?filter_In, ?isin_In, ?notin_In; try tauto.
+  - apply add_all_spec.
+  - apply (toggle_all_spec m2 m1 H1); exact H2.
+Qed.
+
+(* order of the results = what the code produces *)
+Lemma dedup_acc_filter seen l : NoDup l ->
+  dedup_acc Z.eqb seen l = filter (notin seen) l.
+Proof.
+  revert seen. induction l as [|x t IH]; intros seen H; simpl; [reflexivity|].
+  inversion H as [|? ? Hx Ht]; subst. unfold notin at 1.
+  destruct (memb Z.eqb x seen) eqn:E; simpl; [apply IH; exact Ht|].
+  f_equal. rewrite (IH _ Ht). apply filter_ext_in. intros a Ha. unfold notin. simpl.
+  destruct (a =? x) eqn:Eax; [apply Z.eqb_eq in Eax; subst; contradiction|reflexivity].
+Qed.
+
+Lemma dedup_acc_app seen l1 l2 :
+  NoDup l1 -> (forall a, In a l1 -> ~ In a seen) ->
+  dedup_acc Z.eqb seen (l1 ++ l2) = l1 ++ dedup_acc Z.eqb (rev l1 ++ seen) l2.
+Proof.
+  revert seen. induction l1 as [|x t IH]; intros seen Hnd Hs; simpl; [reflexivity|].
+  inversion Hnd as [|? ? Hx Ht]; subst.
+  assert (memb Z.eqb x seen = false) as -> by (apply zmemb_false; apply Hs; left; reflexivity).
+  f_equal. rewrite IH; [rewrite <- app_assoc; reflexivity|exact Ht|].
+  intros a Ha [H|H]; [subst; contradiction|]. apply (Hs a); [right; exact Ha|exact H].
+Qed.
+
+Lemma union_order m1 m2 : NoDup m1 -> NoDup m2 ->
+  set_binop SUnion false m1 m2 = m1 ++ filter (notin m1) m2 /\
+  set_binop SUnion true m1 m2 = m1 ++ filter (notin m1) m2.
+Proof.
+  intros H1 H2. simpl. split.
+  - unfold new_set, dedup_first. rewrite dedup_acc_app by (auto; intros a _ []). f_equal.
+    etransitivity; [apply (dedup_acc_ext m2 (rev m1 ++ []) m1); intros x; rewrite app_nil_r; symmetry; apply in_rev|].
+    apply dedup_acc_filter. exact H2.
+  - rewrite (add_all_is_new_set _ _ H1), (dedup_acc_filter _ _ H2). reflexivity.
+Qed.
+
+Lemma xor_order m1 m2 : NoDup m1 -> NoDup m2 ->
+  set_binop SXor false m1 m2 = filter (notin m2) m1 ++ filter (notin m1) m2.
+Proof.
+  intros H1 H2. simpl. unfold new_set, dedup_first.
+  rewrite dedup_acc_app by (try (apply NoDup_filter; exact H1); intros a _ []). f_equal.
+  rewrite app_nil_r, dedup_acc_filter by (apply NoDup_filter; exact H2).
+  apply filter_all. intros a Ha. apply filter_In in Ha. destruct Ha as [Ha Hn]. apply notin_In in Hn.
+  apply notin_In. intros Hin. apply in_rev in Hin. apply filter_In in Hin. tauto.
+Qed.
+
+(* comparisons: on duplicate-free lists they are the set relations *)
+Lemma set_le_spec m1 m2 : NoDup m1 -> (set_le m1 m2 = true <-> incl m1 m2).
+Proof.
+  intros Hnd. unfold set_le, zlen. destruct (Z.of_nat (length m1) >? Z.of_nat (length m2)) eqn:E.
+  - split; [discriminate|]. intros Hi. pose proof (NoDup_incl_length Hnd Hi). lia.
+  - rewrite forallb_forall. unfold incl. split; intros H a Ha; [apply isin_In|apply isin_In]; apply H; exact Ha.
+Qed.
+
+Lemma set_cmp_spec c m1 m2 : NoDup m1 -> NoDup m2 ->
+  (set_cmp c m1 m2 = true <->
+   match c with
+   | CEq => forall a, In a m1 <-> In a m2
+   | CLe => incl m1 m2
+   | CDisjoint => forall a, In a m1 -> In a m2 -> False
+   end).
+Proof.
+  intros H1 H2. destruct c; simpl.
+  - rewrite andb_true_iff, (set_le_spec _ _ H1). unfold zlen. split.
+    + intros [Hl Hi] a. split; [apply Hi|]. apply (NoDup_length_incl H1); [|exact Hi].
+      apply Z.eqb_eq in Hl. lia.
+    + intros H. assert (incl m1 m2) as Hi by (intros a Ha; apply H; exact Ha).
+      assert (incl m2 m1) as Hi' by (intros a Ha; apply H; exact Ha).
+      split; [|exact Hi]. pose proof (NoDup_incl_length H1 Hi). pose proof (NoDup_incl_length H2 Hi'). lia.
+  - apply set_le_spec. exact H1.
+  - rewrite forallb_forall. split.
+    + intros H a Ha1 Ha2. apply H in Ha2. apply notin_In in Ha2. contradiction.
+    + intros H a Ha. apply notin_In. intros Ha1. exact (H a Ha1 Ha).
+Qed.
+
+Lemma step_setop st s1 s2 o inplace d m1 m2 :
+  members st s1 = Some m1 -> members st s2 = Some m2 -> valid_slot d = true ->
+  step st (SetOp s1 s2 o inplace d) =
+  (store st (if inplace then s1 else d) (set_binop o inplace m1 m2), ROk [b2z inplace]).
+Proof.
+  unfold members. intros H1 H2 Hd. unfold step. cbv zeta. rewrite H1, H2, Hd. reflexivity.
+Qed.
+
+Lemma step_setcmp st s1 s2 c m1 m2 :
+  members st s1 = Some m1 -> members st s2 = Some m2 ->
+  step st (SetCmp s1 s2 c) = (st, ROk [b2z (set_cmp c m1 m2)]).
+Proof. unfold members. intros H1 H2. unfold step. cbv zeta. rewrite H1, H2. reflexivity. Qed.
+
 (* ------------------------------------------------------------------ 7. histories *)
 Definition wf (st : state) : Prop := forall s m, members st s = Some m -> NoDup m.
 
@@ -894,6 +1205,7 @@ Definition target (o : op) : option Z :=
   match o with
   | Select s _ _ _ inplace d => Some (if inplace then s else d)
   | Sort s _ _ inplace d => Some (if inplace then s else d)
+  | Sort2 s _ _ _ inplace d => Some (if inplace then s else d)
   | Shuffle s _ inplace d => Some (if inplace then s else d)
   | GroupGet _ _ _ d => Some d
   | Add s _ => Some s
@@ -901,13 +1213,14 @@ Definition target (o : op) : option Z :=
   | Remove s _ => Some s
   | Pop s => Some s
   | Clear s => Some s
+  | SetOp s1 _ _ inplace d => Some (if inplace then s1 else d)
   | _ => None
   end.
 
 Definition known_in (st : state) (a : id) : Prop := exists s m, members st s = Some m /\ In a m.
 Definition adds (o : op) (a : id) : Prop := match o with Add _ b => a = b | _ => False end.
 Definition writes_tbl (o : op) : bool :=
-  match o with SetAttr _ _ _ => true | GroupDoSet _ _ _ _ => true | _ => false end.
+  match o with SetAttr _ _ _ => true | GroupDoSet _ _ _ _ => true | GroupDo _ _ _ _ _ _ => true | _ => false end.
 
 Definition set_tbl (st : state) (t : table) : state := {| st_tbl := t; st_pool := st_pool st |}.
 
@@ -948,6 +1261,14 @@ Proof.
     + intros Hwf. eapply sort_NoDup; [exact Es|]. eapply Hwf. exact Em.
     + intros a Ha. left. exists s, m. split; [exact Em|].
       apply sort_spec in Es. destruct Es as [Hp _]. eapply Permutation_in; [symmetry; exact Hp|exact Ha].
+  - (* Sort2 *)
+    destruct (slot_get s (st_pool st)) as [m|] eqn:Em; [|same].
+    destruct (valid_slot d); simpl negb; cbv iota; [|same].
+    destruct (sort2_members (st_tbl st) k1 k2 asc m) as [r|] eqn:Es; [|same].
+    pose proof (sort2_spec _ _ _ _ _ _ Es) as [Hp _].
+    intros Hsr; eapply ShStore; [reflexivity|exact Hsr| |].
+    + intros Hwf. eapply Permutation_NoDup; [exact Hp|]. eapply Hwf. exact Em.
+    + intros a Ha. left. exists s, m. split; [exact Em|]. eapply Permutation_in; [symmetry; exact Hp|exact Ha].
   - (* Shuffle *)
     destruct (slot_get s (st_pool st)) as [m|] eqn:Em; [|same].
     destruct (valid_slot d); simpl negb; cbv iota; [|same].
@@ -1040,6 +1361,24 @@ Proof.
   - (* GroupDoSet *)
     destruct (slot_get s (st_pool st)) as [m|]; [|same]. destruct (all_some _ m); [|same].
     intros Hsr; eapply ShSet; [reflexivity|exact Hsr].
+  - (* GroupMap *)
+    destruct (slot_get s (st_pool st)) as [m|]; [|same]. destruct (all_some _ m); [|same].
+    destruct (group_map _ _ _ _); same.
+  - (* GroupDo *)
+    destruct (slot_get s (st_pool st)) as [m|]; [|same]. destruct (all_some _ m); [|same].
+    destruct (by_name && negb rt && negb (zlen _ =? 0)); [same|].
+    intros Hsr; eapply ShSet; [reflexivity|exact Hsr].
+  - (* SetOp *)
+    destruct (slot_get s1 (st_pool st)) as [m1|] eqn:Em1; [|same].
+    destruct (slot_get s2 (st_pool st)) as [m2|] eqn:Em2; [|same].
+    destruct (valid_slot d); simpl negb; cbv iota; [|same].
+    intros Hsr; eapply ShStore; [reflexivity|exact Hsr| |].
+    + intros Hwf. apply set_binop_NoDup; eapply Hwf; eassumption.
+    + intros a Ha. left. apply set_binop_incl in Ha. destruct Ha as [Ha|Ha].
+      * exists s1, m1. split; assumption.
+      * exists s2, m2. split; assumption.
+  - (* SetCmp *)
+    destruct (slot_get s1 (st_pool st)); [|same]. destruct (slot_get s2 (st_pool st)); same.
 Qed.
 
 (* a call that does not return normally leaves the whole state as it was *)
@@ -1139,12 +1478,14 @@ Qed.
 Inductive reorder :=
 | RSelect (p : option pred) (am : atmost) (ty : option Z)
 | RSort (k : keyf) (asc : bool)
+| RSort2 (k1 k2 : keyf) (asc : bool)
 | RShuffle (outcome : list id).
 
 Definition mk_op (s : Z) (r : reorder) (inplace : bool) (d : Z) : op :=
   match r with
   | RSelect p am ty => Select s p am ty inplace d
   | RSort k asc => Sort s k asc inplace d
+  | RSort2 k1 k2 asc => Sort2 s k1 k2 asc inplace d
   | RShuffle o => Shuffle s o inplace d
   end.
 
@@ -1153,6 +1494,7 @@ Definition transform (t : table) (r : reorder) (m : list id) : tres :=
   match r with
   | RSelect p am ty => match select_members t p am ty m with Some x => TOk x | None => TErr end
   | RSort k asc => match sort_members t k asc m with Some x => TOk x | None => TErr end
+  | RSort2 k1 k2 asc => match sort2_members t k1 k2 asc m with Some x => TOk x | None => TErr end
   | RShuffle o => if perm_check o m then TOk o else TIllegal
   end.
 
@@ -1169,6 +1511,7 @@ Proof.
   destruct r; unfold mk_op, step, transform; cbv zeta; rewrite Hm, Hd; simpl negb; cbv iota.
   - destruct (select_members (st_tbl st) p am ty m); reflexivity.
   - destruct (sort_members (st_tbl st) k asc m); reflexivity.
+  - destruct (sort2_members (st_tbl st) k1 k2 asc m); reflexivity.
   - destruct (perm_check outcome m); reflexivity.
 Qed.
 
@@ -1255,12 +1598,12 @@ Lemma step_set st s n v m :
   step st (SetAttr s n v) = (set_tbl st (set_attr_all m n v (st_tbl st)), ROk [1]).
 Proof. unfold members. intros Hm. unfold step. cbv zeta. rewrite Hm. reflexivity. Qed.
 
-Lemma step_groupby st s k m :
+Lemma step_groupby st s k rt m :
   members st s = Some m ->
-  step st (GroupBy s k) =
+  step st (GroupBy s k rt) =
   match all_some (eval_key (st_tbl st) k) m with
   | Some _ => let g := groupby_members (key_or0 (st_tbl st) k) m in
-              (st, ROk (zlen g :: flat_map (fun e => fst e :: zlen (snd e) :: snd e) g))
+              (st, ROk (b2z rt :: zlen g :: flat_map (fun e => fst e :: zlen (snd e) :: snd e) g))
   | None => (st, RErr E_ATTR)
   end.
 Proof. unfold members. intros Hm. unfold step. cbv zeta. rewrite Hm. destruct (all_some _ m); reflexivity. Qed.
@@ -1786,21 +2129,6 @@ Qed.
 
 (* --- filtering commutes with the stable sort: select (no limit) of a sorted set = sort of the
    selected set --- *)
-Lemma filter_comm {A} (f g : A -> bool) l : filter f (filter g l) = filter g (filter f l).
-Proof.
-  induction l as [|x t IH]; simpl; [reflexivity|].
-  destruct (f x) eqn:Ef, (g x) eqn:Eg; simpl; rewrite ?Ef, ?Eg, IH; reflexivity.
-Qed.
-
-Lemma StronglySorted_filter {A} (R : A -> A -> Prop) (f : A -> bool) l :
-  StronglySorted R l -> StronglySorted R (filter f l).
-Proof.
-  induction l as [|x t IH]; intros H; simpl; [constructor|].
-  inversion H as [|? ? Ht Hx]; subst. destruct (f x); [|apply IH; exact Ht].
-  constructor; [apply IH; exact Ht|].
-  rewrite Forall_forall in *. intros y Hy. apply filter_In in Hy. apply Hx. tauto.
-Qed.
-
 Lemma filter_isort_comm {A} (le : Z -> Z -> bool) (kf : A -> Z) (f : A -> bool) l :
   (forall a b, le a b = true \/ le b a = true) ->
   (forall a b c, le a b = true -> le b c = true -> le a c = true) ->
@@ -2035,3 +2363,79 @@ Proof.
   split; [|apply all_some_none].
   intros r H. split; [apply all_some_map; exact H|eapply all_some_length; exact H].
 Qed.
+
+(* --- GroupBy.map / GroupBy.do with method names and callables, result_type list / agentset --- *)
+Lemma group_map_none t rt gm g :
+  group_map t rt gm g = None <-> exists e, In e g /\ gm_apply t rt gm (snd e) = None.
+Proof.
+  induction g as [|[k mem] rest IH]; simpl.
+  - split; [discriminate|intros [e [[] _]]].
+  - destruct (gm_apply t rt gm mem) as [vs|] eqn:Ea.
+    + destruct (group_map t rt gm rest) as [r|] eqn:Er.
+      * split; [discriminate|]. intros [e [[<-|He] Hn]]; [simpl in Hn; congruence|].
+        destruct IH as [_ IH]. discriminate IH. exists e. split; assumption.
+      * split; [|reflexivity]. intros _. destruct IH as [IH _]. destruct (IH eq_refl) as [e [He Hn]].
+        exists e. split; [right; exact He|exact Hn].
+    + split; [|reflexivity]. intros _. exists (k, mem). split; [left; reflexivity|exact Ea].
+Qed.
+
+Lemma group_map_some t rt gm g r :
+  group_map t rt gm g = Some r ->
+  r = flat_map (fun e => fst e :: match gm_apply t rt gm (snd e) with Some vs => vs | None => [] end) g.
+Proof.
+  revert r. induction g as [|[k mem] rest IH]; intros r H; simpl in H; [inversion H; reflexivity|].
+  destruct (gm_apply t rt gm mem) as [vs|] eqn:Ea; [|discriminate].
+  destruct (group_map t rt gm rest) as [r'|] eqn:Er; [|discriminate].
+  inversion H. subst r. simpl. rewrite Ea, (IH _ eq_refl). reflexivity.
+Qed.
+
+Lemma groupby_nil_iff kf m : groupby_members kf m = [] <-> m = [].
+Proof.
+  split; [|intros ->; reflexivity]. intros H.
+  destruct (groupby_spec kf m) as [_ [_ [_ [_ Hp]]]]. rewrite H in Hp. simpl in Hp.
+  apply Permutation_nil in Hp. exact Hp.
+Qed.
+
+Lemma step_group_map st s k rt gm m ks :
+  members st s = Some m -> all_some (eval_key (st_tbl st) k) m = Some ks ->
+  let g := groupby_members (key_or0 (st_tbl st) k) m in
+  step st (GroupMap s k rt gm) =
+  match group_map (st_tbl st) rt gm g with Some r => (st, ROk r) | None => (st, RErr E_ATTR) end.
+Proof. intros Hm Hk g. unfold members in Hm. unfold step. cbv zeta. rewrite Hm, Hk. reflexivity. Qed.
+
+Lemma group_map_len t rt b g :
+  group_map t rt (GMLen b) g = Some (flat_map (fun e => [fst e; zlen (snd e)]) g).
+Proof. induction g as [|[k mem] rest IH]; simpl; [reflexivity|]. rewrite IH. reflexivity. Qed.
+
+(* a method name that only AgentSet has, on result_type="list": AttributeError as soon as there is a group *)
+Lemma group_map_get_on_lists t n g : g <> [] -> group_map t false (GMGet n) g = None.
+Proof. destruct g as [|[k mem] rest]; [congruence|reflexivity]. Qed.
+
+Lemma step_group_do st s k rt by_name n v m ks :
+  members st s = Some m -> all_some (eval_key (st_tbl st) k) m = Some ks ->
+  (by_name = false \/ rt = true \/ m = [] -> step st (GroupDo s k rt by_name n v) = step st (SetAttr s n v)) /\
+  (by_name = true -> rt = false -> m <> [] -> step st (GroupDo s k rt by_name n v) = (st, RErr E_ATTR)).
+Proof.
+  intros Hm Hk. pose proof (step_group_do_set st s k n v m ks Hm Hk) as Hset.
+  assert (step st (GroupDoSet s k n v) =
+          ({| st_tbl := group_do_set n v (groupby_members (key_or0 (st_tbl st) k) m) (st_tbl st); st_pool := st_pool st |}, ROk [1])) as Hd.
+  { unfold members in Hm. unfold step. cbv zeta. rewrite Hm, Hk. reflexivity. }
+  assert (zlen (groupby_members (key_or0 (st_tbl st) k) m) =? 0 = true <-> m = []) as Hz.
+  { rewrite Z.eqb_eq. unfold zlen. split.
+    - intros H. apply (groupby_nil_iff (key_or0 (st_tbl st) k)).
+      destruct (groupby_members (key_or0 (st_tbl st) k) m); [reflexivity|simpl length in H; lia].
+    - intros ->. reflexivity. }
+  split.
+  - intros Hc. rewrite <- Hset, Hd. unfold members in Hm. unfold step. cbv zeta. rewrite Hm, Hk.
+    assert (by_name && negb rt && negb (zlen (groupby_members (key_or0 (st_tbl st) k) m) =? 0) = false) as ->; [|reflexivity].
+    destruct Hc as [->|[->|Hc]]; [reflexivity|destruct by_name; reflexivity|].
+    apply Hz in Hc. rewrite Hc. destruct by_name, rt; reflexivity.
+  - intros -> -> Hne. unfold members in Hm. unfold step. cbv zeta. rewrite Hm, Hk.
+    destruct (zlen (groupby_members (key_or0 (st_tbl st) k) m) =? 0) eqn:E; [exfalso; apply Hne; apply Hz; reflexivity|reflexivity].
+Qed.
+
+Lemma group_map_values t rt gm g :
+  (forall r, group_map t rt gm g = Some r ->
+     r = flat_map (fun e => fst e :: match gm_apply t rt gm (snd e) with Some vs => vs | None => [] end) g) /\
+  (group_map t rt gm g = None <-> exists e, In e g /\ gm_apply t rt gm (snd e) = None).
+Proof. split; [apply group_map_some|apply group_map_none]. Qed.
